@@ -5,7 +5,7 @@ CONSTANTS CASEFILE, RESULT
 Recs == ndJsonDeserialize(CASEFILE)
 VARIABLES l, bad
 Init == l = 1 /\ bad = <<>>
-Exp(r) == [i \in 1..Len(r.arg) |-> LET x == TraverseSpec(r.in, r.arg[i], <<>>) IN [ok |-> x.ok, addr |-> x.addr]]
+Exp(r) == [i \in 1..Len(r.arg) |-> LET x == TraverseSpec(r.in, r.arg[i], <<>>) IN [ok |-> x.ok, addr |-> x.addr, note |-> ""]]
 Next == /\ l <= Len(Recs) /\ l' = l + 1
         /\ LET r == Recs[l] IN
            bad' = IF r.panic = "" /\ Exp(r) = r.out THEN bad ELSE Append(bad, [line |-> l, exp |-> Exp(r)])
